@@ -32,7 +32,7 @@ RULE = ("(i) frame monitor around every call: __setattr__/__delattr__ tap on the
         "SYSTEMATIC single-preemption sweep: for pairs of conflicting calls (A, B) thread A is suspended at every distinct "
         "statement boundary it passes through (plus sampled later loop iterations), B runs to completion on the same model, A "
         "resumes - every interleaving with one preemption of A at statement granularity, both results compared bit for bit; the same sweep from a COLD start (the library freshly imported before every run, so that the first-use publication of lazily built module-level state is inside the race; afterwards the calls are repeated one after another in the state the race left behind). "
-        "Non-trivial: a call preceded (sequentially or concurrently) by a call with different per-call options; "
+        "(vi) RE-ENTRANT use: a gamma callback that itself calls rate/predict on the same model while the outer call is in progress and returns 1/k - the outer result must equal, bit for bit, that of a model with the plain 1/k callback, and every inner call its history-free result. Non-trivial: a call preceded (sequentially or concurrently) by a call with different per-call options; "
         "distinct by hash of (sequence, position) / (round, thread, position).")
 ASSUMPTIONS = ["thread interleavings are sampled, not enumerated; the write tap detects the mechanism of schedule "
                "dependence on every execution", "custom gamma callbacks used here are pure functions"]
@@ -45,7 +45,7 @@ def floors(tier):
     q = tier == "quick"
     return {"frame/no-write": 6000 if q else 600000, "history-free": 6000 if q else 600000,
             "history-free/feedback": 4000 if q else 400000, "history-free/after-failing-call": 300 if q else 30000,
-            "threads/call": 1500 if q else 160000, "preempt/run": 3000 if q else 200000, "cold-preempt/run": 100 if q else 30000, "hashseed/digest": 3 if q else 5,
+            "threads/call": 1500 if q else 160000, "preempt/run": 3000 if q else 200000, "cold-preempt/run": 100 if q else 30000, "reentrant/outer==plain": 500 if q else 40000, "hashseed/digest": 3 if q else 5,
             "process-order/call": 2000 if q else 60000}
 
 
@@ -139,6 +139,19 @@ def generate(ctx):
         if b["op"] == "rate":
             b["call"] = dict(tau=ctx.rng.choice([10 * cfg["beta"], 1e-3 * cfg["beta"]]), limit_sigma=False)
         yield "preempt", dict(model=m, cfg=cfg, a=a, b=b, extra=ctx.rng.randrange(2 ** 30))
+    for _ in range(ctx.budget(600, 48000)):
+        m = ctx.rng.choice(MODEL_NAMES)
+        cfg = gen.gen_cfg(ctx.rng)
+        cfg["tau"] = cfg["beta"] * ctx.rng.choice([0.02, 1, 3])
+        outer = None
+        while outer is None or outer["op"] != "rate":
+            outer = gen_ops(ctx.rng, cfg, 1, kmax=5, pmax=3)[0]
+        outer["call"] = dict(tau=ctx.rng.choice([0, 3 * cfg["beta"]]), limit_sigma=True) if ctx.rng.random() < 0.7 else {}
+        inner = gen_ops(ctx.rng, cfg, ctx.rng.randint(1, 3), kmax=4, pmax=2)
+        for op in inner:
+            if op["op"] == "rate":
+                op["call"] = dict(tau=10 * cfg["beta"], limit_sigma=False)
+        yield "reenter", dict(model=m, cfg=cfg, outer=outer, inner=inner)
     combos = [(m_, k_) for m_ in MODEL_NAMES for k_ in ("predict_win", "predict_draw", "predict_rank", "rate")]
     ncold = 20 if ctx.tier == "quick" else ctx.budget(20, 1600) * ctx.nshards
     for ci in range(ctx.shard, ncold, ctx.nshards):
@@ -633,6 +646,60 @@ def probe_preempt(ctx, payload):
                         trace_events=len(trace), distinct_statement_boundaries=len(first), preempted_runs=len(ks)))
 
 
+# ------------------------------------------------------------------------------------------- re-entrant use
+def probe_reenter(ctx, payload):
+    """The application's gamma callback itself uses the model (it asks predict_draw how close the game is, or rates a
+    side match) while the outer rate call is in progress: the same thread interleaves two calls on one model, at the
+    points where the library hands control to the application.  The callback returns 1/k, so the outer call must return,
+    bit for bit, what a model with the plain 1/k callback returns, and every inner call its history-free result."""
+    model_name, cfg, outer, inner = payload["model"], dict(payload["cfg"], gamma="inv_k"), payload["outer"], payload["inner"]
+    Ms = models()
+    install_taps()
+    o_plain, want = oracle(model_name, cfg, outer, Ms)
+    model = league.make_model(model_name, cfg, Ms)
+    inner_want = [oracle(model_name, cfg, op, Ms)[1] for op in inner]
+    state = {"n": 0, "bad": [], "busy": False}
+
+    def gamma(c, k, mu, sigma_squared, team, rank):
+        if not state["busy"]:
+            state["busy"] = True  # the inner calls' own callback invocations do not recurse further
+            try:
+                j = state["n"] % len(inner)
+                state["n"] += 1
+                op = inner[j]
+                teams = _mk_teams(model, op)
+                res = getattr(model, op["op"])(teams, **_kw(op)) if op["op"] == "rate" else getattr(model, op["op"])(teams)
+                if not _same(_numbers(op, res), inner_want[j]):
+                    state["bad"].append(dict(inner_call=j, op=op["op"], during_outer_callback=state["n"]))
+            except Exception as e:  # noqa: BLE001
+                state["bad"].append(dict(inner_call=state["n"], exc=exc_detail(e)))
+            finally:
+                state["busy"] = False
+        return 1.0 / k
+
+    model.gamma = gamma
+    o, nums = run_op(model, outer)
+    reg = f"reentrant/{KIND[model_name]}"
+    ctx.ev("reentrant/outer==plain")
+    ctx.count("reentrant_inner_calls", state["n"])
+    if o.exc is not None or o_plain.exc is not None:
+        ctx.violation("reentrant/no-return", "reenter", payload, dict(exc=exc_detail(o.exc or o_plain.exc)), model_name, reg)
+        return
+    ch = [c_ for c_ in attrs_changed(o) if c_[0] != "gamma"]
+    if o.writes or ch:
+        ctx.violation("frame/model-write", "reenter", payload, dict(writes=[w[:3] for w in o.writes[:5]], attrs_changed=ch[:5]), model_name, reg)
+    if not _same(nums, want):
+        first = next((i for i, (x, y) in enumerate(zip(nums or [], want or [])) if float(x).hex() != float(y).hex()), None)
+        ctx.violation("reentrant/outer==plain", "reenter", payload,
+                      dict(first_diff_index=first, got=(nums or [None])[first or 0], want=(want or [None])[first or 0],
+                           inner_calls_made=state["n"]), model_name, reg)
+    ctx.ev("reentrant/inner==history-free", max(1, state["n"]))
+    if state["bad"]:
+        ctx.violation("reentrant/inner==history-free", "reenter", payload, dict(first=state["bad"][:3]), model_name, reg)
+    ctx.case(dict(re=payload["outer"]["teams"][0][0], m=model_name), state["n"] > 0)
+    ctx.bucket("reentrant_inner_ops", "+".join(sorted({op["op"] for op in inner})))
+
+
 # ------------------------------------------------------------------------------------------- cold-start preemption
 def _purge_library():
     """forget the library: the next import builds every module-level object (lazily filled tables, memo dicts, caches)
@@ -786,7 +853,8 @@ def probe_cold(ctx, payload):
                         fresh_imports=res["runs"], first_use_statements=res["first_use_statements"][:10], distinct_statement_boundaries=res["distinct_boundaries"], trace_events=res["trace_events"]))
 
 
-PROBES = {"seq": probe_seq, "threads": probe_threads, "fb": probe_fb, "preempt": probe_preempt, "cold": probe_cold}
+PROBES = {"seq": probe_seq, "threads": probe_threads, "fb": probe_fb, "preempt": probe_preempt, "cold": probe_cold,
+          "reenter": probe_reenter}
 
 
 # ------------------------------------------------------------------------------------------- hash-seed sweep (driver side)
